@@ -325,6 +325,9 @@ def plan(tier, seed):
     for i in range(3):
         specs.append(dict(name="pools-%d" % i, kind="pools", n=max(300, n // 5)))
     specs.append(dict(name="garbage", kind="garbage", n=n * 2))
+    # once more with the library's debug tracing switched on
+    specs.append(dict(name="tracing-octets", kind="octets", n=n // 4, tracing=True))
+    specs.append(dict(name="tracing-ip-random", kind="iprandom", n=n // 4, tracing=True))
     return specs
 
 
